@@ -1,5 +1,6 @@
 """C03: contracts shared with C04 (field-level parse pipeline)."""
 from contracts.C04_field_validate import ArrayValidate, IndexValidate
 from contracts.C11_drop_invalid_rows import PandasDropInvalidRows, PolarsDropInvalidRows
+from contracts.C03_polars_container_validate import PolarsContainerValidate
 
-CONTRACTS = [ArrayValidate, IndexValidate, PandasDropInvalidRows, PolarsDropInvalidRows]
+CONTRACTS = [ArrayValidate, IndexValidate, PandasDropInvalidRows, PolarsDropInvalidRows]  # PolarsContainerValidate: own file (C03_polars_container_validate.py)
